@@ -24,12 +24,13 @@ def runLine (line : String) : String :=
   | none => "bad-op"
   | some (t, m, p, n) =>
     -- translation validation of `Router.build` for this table: the tree satisfies the invariant of
-    -- the refinement theorem (TI) and represents exactly the registered entries (RS)
-    let inv := Tree.tableInvariant t
+    -- the refinement theorem (TI) and represents exactly the table in force (RS: the registered entries,
+    -- a re-registered route replacing its earlier registration)
+    let inv := Tree.tableInvariantD t
     render (encOutcome (find (build t) m p (List.replicate (max n (maxParam t)) []))
-      ++ ["//"] ++ encSpec (Spec.routeTable t m p)
+      ++ ["//"] ++ encSpec (Spec.routeTable (Tree.dedupLast t) m p)
       ++ ["//", if inv.1 then "TI1" else "TI0", if inv.2 then "RS1" else "RS0",
           -- a well-formed table must pass both (the statement of the insert-correctness theorem)
-          if Tree.wfTable t then (if inv.1 && inv.2 then "WF1" else "WF-BUT-INVARIANT-FAILS") else "WF0"])
+          if Tree.okTable t then (if (inv.1 || t.isEmpty) && inv.2 then "WF1" else "WF-BUT-INVARIANT-FAILS") else "WF0"])
 
 end C01
